@@ -21,7 +21,7 @@ import (
 // Correspondence case "json_valid": |d| d...  ->  [valid_b d]   (Json/Grammar.v against encoding/json.Valid)
 // Correspondence case "json_strip": |d| d...  ->  strip_ws d     (against encoding/json.Compact, valid documents only)
 
-func jsonNewInput(ctor int64, d []byte) *parse.Input {
+func c10JsonNewInput(ctor int64, d []byte) *parse.Input {
 	switch ctor {
 	case 0:
 		b := make([]byte, len(d), len(d)+1+len(d)%3)
@@ -39,8 +39,8 @@ func jsonNewInput(ctor int64, d []byte) *parse.Input {
 	}
 }
 
-// sliceOffset returns the offset of s inside base (by address), or -777 when s is not a sub-slice of base.
-func sliceOffset(base, s []byte) int64 {
+// c10SliceOffset returns the offset of s inside base (by address), or -777 when s is not a sub-slice of base.
+func c10SliceOffset(base, s []byte) int64 {
 	if len(s) == 0 {
 		return -778
 	}
@@ -54,16 +54,16 @@ func sliceOffset(base, s []byte) int64 {
 	return lo
 }
 
-// errTracker recovers the offset a *parse.Error was created at: a new error object appears exactly in the
+// c10ErrTracker recovers the offset a *parse.Error was created at: a new error object appears exactly in the
 // Next call that created it, at which time the cursor offset is the offset given to NewErrorLexer; this is
 // validated against the line/column stored in the error.
-type errTracker struct {
+type c10ErrTracker struct {
 	data []byte
 	last *parse.Error
 	off  int64
 }
 
-func (t *errTracker) observe(e error, curOff int) (kind, off int64) {
+func (t *c10ErrTracker) observe(e error, curOff int) (kind, off int64) {
 	switch v := e.(type) {
 	case nil:
 		return 0, -1
@@ -84,17 +84,17 @@ func (t *errTracker) observe(e error, curOff int) (kind, off int64) {
 	return 3, -1
 }
 
-func jsonImpl(c Case) []int64 {
+func c10JsonImpl(c Case) []int64 {
 	ctor, extra := c.Args[0], c.Args[1]
 	dv, _ := takeList(c.Args[2:])
 	d := toBytes(dv)
-	in := jsonNewInput(ctor, d)
+	in := c10JsonNewInput(ctor, d)
 	p := json.NewParser(in)
 	vis := d
 	if ctor == 3 {
 		vis = nil
 	}
-	tr := &errTracker{data: vis}
+	tr := &c10ErrTracker{data: vis}
 	var out []int64
 	obs := func() bool {
 		var st json.State
@@ -127,7 +127,7 @@ func jsonImpl(c Case) []int64 {
 			for _, x := range b {
 				out = append(out, int64(x))
 			}
-			out = append(out, sliceOffset(in.Bytes(), b))
+			out = append(out, c10SliceOffset(in.Bytes(), b))
 		}
 		if !obs() {
 			return out
@@ -142,7 +142,7 @@ func jsonImpl(c Case) []int64 {
 	return append(out, -3)
 }
 
-func jsonCase(ctor, extra int, d []byte, note string) Case {
+func c10JsonCase(ctor, extra int, d []byte, note string) Case {
 	args := []int64{int64(ctor), int64(extra)}
 	args = append(args, bytesToArgs(d)...)
 	return Case{Fn: "json", Args: args, Note: fmt.Sprintf("%s ctor=%d extra=%d %q", note, ctor, extra, d)}
@@ -150,13 +150,13 @@ func jsonCase(ctor, extra int, d []byte, note string) Case {
 
 // ---- document generator ----------------------------------------------------------------------
 
-// jtok kinds: { } [ ] , :  k(ey string)  s(tring value)  n(umber)  l(iteral)  w(hitespace)
-type jtok struct {
+// c10Jtok kinds: { } [ ] , :  k(ey string)  s(tring value)  n(umber)  l(iteral)  w(hitespace)
+type c10Jtok struct {
 	kind byte
 	b    []byte
 }
 
-func joinToks(ts []jtok) []byte {
+func c10JoinToks(ts []c10Jtok) []byte {
 	var out []byte
 	for _, t := range ts {
 		out = append(out, t.b...)
@@ -164,22 +164,22 @@ func joinToks(ts []jtok) []byte {
 	return out
 }
 
-var wsBytes = []byte{' ', '\n', '\r', '\t'}
+var c10WsBytes = []byte{' ', '\n', '\r', '\t'}
 
-func genWS(r *Rng) jtok {
+func c10GenWS(r *Rng) c10Jtok {
 	var b []byte
 	if r.Chance(2, 5) {
 		n := 1 + r.Intn(3)
 		for i := 0; i < n; i++ {
-			b = append(b, r.Pick(wsBytes))
+			b = append(b, r.Pick(c10WsBytes))
 		}
 	}
-	return jtok{'w', b}
+	return c10Jtok{'w', b}
 }
 
-const hexDigits = "0123456789abcdefABCDEF"
+const c10HexDigits = "0123456789abcdefABCDEF"
 
-func genStringBody(r *Rng) []byte {
+func c10GenStringBody(r *Rng) []byte {
 	var b []byte
 	n := r.Intn(7)
 	for i := 0; i < n; i++ {
@@ -187,7 +187,7 @@ func genStringBody(r *Rng) []byte {
 		case 0:
 			b = append(b, '\\', r.Pick([]byte(`"\/bfnrt`)))
 		case 1:
-			b = append(b, '\\', 'u', hexDigits[r.Intn(22)], hexDigits[r.Intn(22)], hexDigits[r.Intn(22)], hexDigits[r.Intn(22)])
+			b = append(b, '\\', 'u', c10HexDigits[r.Intn(22)], c10HexDigits[r.Intn(22)], c10HexDigits[r.Intn(22)], c10HexDigits[r.Intn(22)])
 		case 2:
 			b = append(b, '\\', '\\')
 		case 3:
@@ -218,11 +218,11 @@ func genStringBody(r *Rng) []byte {
 	return b
 }
 
-func genString(r *Rng) []byte {
-	return append(append([]byte{'"'}, genStringBody(r)...), '"')
+func c10GenString(r *Rng) []byte {
+	return append(append([]byte{'"'}, c10GenStringBody(r)...), '"')
 }
 
-func genDigits(r *Rng, min int) []byte {
+func c10GenDigits(r *Rng, min int) []byte {
 	n := min + r.Intn(3)
 	var b []byte
 	for i := 0; i < n; i++ {
@@ -231,7 +231,7 @@ func genDigits(r *Rng, min int) []byte {
 	return b
 }
 
-func genNumber(r *Rng) []byte {
+func c10GenNumber(r *Rng) []byte {
 	var b []byte
 	if r.Chance(1, 3) {
 		b = append(b, '-')
@@ -240,11 +240,11 @@ func genNumber(r *Rng) []byte {
 		b = append(b, '0')
 	} else {
 		b = append(b, byte('1'+r.Intn(9)))
-		b = append(b, genDigits(r, 0)...)
+		b = append(b, c10GenDigits(r, 0)...)
 	}
 	if r.Chance(1, 3) {
 		b = append(b, '.')
-		b = append(b, genDigits(r, 1)...)
+		b = append(b, c10GenDigits(r, 1)...)
 	}
 	if r.Chance(1, 3) {
 		b = append(b, r.Pick([]byte("eE")))
@@ -254,66 +254,66 @@ func genNumber(r *Rng) []byte {
 		case 1:
 			b = append(b, '-')
 		}
-		b = append(b, genDigits(r, 1)...)
+		b = append(b, c10GenDigits(r, 1)...)
 	}
 	return b
 }
 
-// genValue appends the tokens of one value (no surrounding whitespace)
-func genValue(r *Rng, depth int, ts []jtok) []jtok {
+// c10GenValue appends the tokens of one value (no surrounding whitespace)
+func c10GenValue(r *Rng, depth int, ts []c10Jtok) []c10Jtok {
 	k := r.Intn(10)
 	if depth <= 0 && k >= 6 {
 		k = r.Intn(6)
 	}
 	switch {
 	case k < 2:
-		return append(ts, jtok{'l', []byte(r.PickStr([]string{"true", "false", "null"}))})
+		return append(ts, c10Jtok{'l', []byte(r.PickStr([]string{"true", "false", "null"}))})
 	case k < 4:
-		return append(ts, jtok{'n', genNumber(r)})
+		return append(ts, c10Jtok{'n', c10GenNumber(r)})
 	case k < 6:
-		return append(ts, jtok{'s', genString(r)})
+		return append(ts, c10Jtok{'s', c10GenString(r)})
 	case k < 8:
-		ts = append(ts, jtok{'[', []byte("[")}, genWS(r))
+		ts = append(ts, c10Jtok{'[', []byte("[")}, c10GenWS(r))
 		n := r.Intn(4)
 		for i := 0; i < n; i++ {
 			if i > 0 {
-				ts = append(ts, jtok{',', []byte(",")}, genWS(r))
+				ts = append(ts, c10Jtok{',', []byte(",")}, c10GenWS(r))
 			}
-			ts = genValue(r, depth-1, ts)
-			ts = append(ts, genWS(r))
+			ts = c10GenValue(r, depth-1, ts)
+			ts = append(ts, c10GenWS(r))
 		}
-		return append(ts, jtok{']', []byte("]")})
+		return append(ts, c10Jtok{']', []byte("]")})
 	default:
-		ts = append(ts, jtok{'{', []byte("{")}, genWS(r))
+		ts = append(ts, c10Jtok{'{', []byte("{")}, c10GenWS(r))
 		n := r.Intn(4)
 		for i := 0; i < n; i++ {
 			if i > 0 {
-				ts = append(ts, jtok{',', []byte(",")}, genWS(r))
+				ts = append(ts, c10Jtok{',', []byte(",")}, c10GenWS(r))
 			}
-			ts = append(ts, jtok{'k', genString(r)}, genWS(r), jtok{':', []byte(":")}, genWS(r))
-			ts = genValue(r, depth-1, ts)
-			ts = append(ts, genWS(r))
+			ts = append(ts, c10Jtok{'k', c10GenString(r)}, c10GenWS(r), c10Jtok{':', []byte(":")}, c10GenWS(r))
+			ts = c10GenValue(r, depth-1, ts)
+			ts = append(ts, c10GenWS(r))
 		}
-		return append(ts, jtok{'}', []byte("}")})
+		return append(ts, c10Jtok{'}', []byte("}")})
 	}
 }
 
-func genDoc(r *Rng, depth int) []jtok {
-	ts := []jtok{genWS(r)}
-	ts = genValue(r, depth, ts)
-	return append(ts, genWS(r))
+func c10GenDoc(r *Rng, depth int) []c10Jtok {
+	ts := []c10Jtok{c10GenWS(r)}
+	ts = c10GenValue(r, depth, ts)
+	return append(ts, c10GenWS(r))
 }
 
-var jsonMutAlphabet = []byte("{}[],:\"\\01-.eEtfn \n\x00\x80+u/")
+var c10JsonMutAlphabet = []byte("{}[],:\"\\01-.eEtfn \n\x00\x80+u/")
 
-func mutateBytes(r *Rng, d []byte) []byte {
+func c10MutateBytes(r *Rng, d []byte) []byte {
 	out := append([]byte{}, d...)
 	n := 1 + r.Intn(2)
 	for i := 0; i < n; i++ {
 		switch r.Intn(5) {
 		case 0: // flip
 			if len(out) > 0 {
-				out[r.Intn(len(out))] = r.Pick(jsonMutAlphabet)
+				out[r.Intn(len(out))] = r.Pick(c10JsonMutAlphabet)
 			}
 		case 1: // delete
 			if len(out) > 0 {
@@ -322,7 +322,7 @@ func mutateBytes(r *Rng, d []byte) []byte {
 			}
 		case 2: // insert
 			k := r.Intn(len(out) + 1)
-			out = append(out[:k], append([]byte{r.Pick(jsonMutAlphabet)}, out[k:]...)...)
+			out = append(out[:k], append([]byte{r.Pick(c10JsonMutAlphabet)}, out[k:]...)...)
 		case 3: // truncate
 			if len(out) > 0 {
 				out = out[:r.Intn(len(out))]
@@ -338,10 +338,10 @@ func mutateBytes(r *Rng, d []byte) []byte {
 	return out
 }
 
-var jsonAlphabet = []byte("{}[],:\"\\01-.et ")
-var jsonTokens = []string{"[", "]", "{", "}", ",", ":", `"k"`, "1", " "}
+var c10JsonAlphabet = []byte("{}[],:\"\\01-.et ")
+var c10JsonTokens = []string{"[", "]", "{", "}", ",", ":", `"k"`, "1", " "}
 
-func allTokenStrings(toks []string, k int, f func([]byte)) {
+func c10AllTokenStrings(toks []string, k int, f func([]byte)) {
 	var rec func(cur []byte, n int)
 	rec = func(cur []byte, n int) {
 		f(append([]byte{}, cur...))
@@ -355,65 +355,65 @@ func allTokenStrings(toks []string, k int, f func([]byte)) {
 	rec(nil, 0)
 }
 
-func jsonGenCases(r *Rng, tier string, emit func(Case)) {
+func c10JsonGenCases(r *Rng, tier string, emit func(Case)) {
 	kA, kT, kN, nRand := 4, 5, 5, 9000
 	if tier == "thorough" {
 		kA, kT, kN, nRand = 5, 6, 6, 200000
 	}
 	i := 0
-	allStrings(jsonAlphabet, kA, func(d []byte) {
+	allStrings(c10JsonAlphabet, kA, func(d []byte) {
 		i++
-		emit(jsonCase(i%3, 2, d, "exh"))
+		emit(c10JsonCase(i%3, 2, d, "exh"))
 	})
-	allTokenStrings(jsonTokens, kT, func(d []byte) {
+	c10AllTokenStrings(c10JsonTokens, kT, func(d []byte) {
 		i++
-		emit(jsonCase(i%3, 1+i%2, d, "tok"))
+		emit(c10JsonCase(i%3, 1+i%2, d, "tok"))
 	})
 	allStrings([]byte("-01.eE+"), kN, func(d []byte) {
 		i++
-		emit(jsonCase(1, 1, d, "num"))
+		emit(c10JsonCase(1, 1, d, "num"))
 	})
 	allStrings([]byte("\"\\au\x00"), 5, func(d []byte) {
 		i++
-		emit(jsonCase(1, 1, append([]byte{'"'}, d...), "str"))
+		emit(c10JsonCase(1, 1, append([]byte{'"'}, d...), "str"))
 	})
 	for _, lit := range []string{"true", "false", "null"} {
 		for cut := 0; cut <= len(lit); cut++ {
-			emit(jsonCase(1, 1, []byte(lit[:cut]), "lit"))
-			emit(jsonCase(1, 1, []byte("["+lit[:cut]+"]"), "lit"))
-			emit(jsonCase(1, 1, []byte(lit[:cut]+"x"), "lit"))
+			emit(c10JsonCase(1, 1, []byte(lit[:cut]), "lit"))
+			emit(c10JsonCase(1, 1, []byte("["+lit[:cut]+"]"), "lit"))
+			emit(c10JsonCase(1, 1, []byte(lit[:cut]+"x"), "lit"))
 		}
 		for k := 0; k < len(lit); k++ {
 			b := []byte(lit)
 			b[k] ^= 0x20
-			emit(jsonCase(1, 1, b, "lit"))
+			emit(c10JsonCase(1, 1, b, "lit"))
 			b[k] = 0
-			emit(jsonCase(1, 1, b, "lit"))
+			emit(c10JsonCase(1, 1, b, "lit"))
 		}
 	}
 	// all whitespace bytes at all positions of short token strings
 	allStrings([]byte("\t\n\r 1[],"), 4, func(d []byte) {
 		i++
-		emit(jsonCase(i%3, 1, d, "ws"))
+		emit(c10JsonCase(i%3, 1, d, "ws"))
 	})
 	// deep nesting (the state stack), complete and truncated
 	for _, depth := range []int{10, 100, 300} {
 		a := bytes.Repeat([]byte("["), depth)
 		o := bytes.Repeat([]byte(`{"a":`), depth)
-		emit(jsonCase(1, 1, append(append(append([]byte{}, a...), '1'), bytes.Repeat([]byte("]"), depth)...), "deep"))
-		emit(jsonCase(1, 1, append(append(append([]byte{}, o...), '1'), bytes.Repeat([]byte("}"), depth)...), "deep"))
-		emit(jsonCase(1, 1, append(append(append([]byte{}, a...), '1'), bytes.Repeat([]byte("]"), depth-1)...), "deep"))
-		emit(jsonCase(1, 2, append(append(append([]byte{}, o...), '1'), bytes.Repeat([]byte("}"), depth+1)...), "deep"))
-		emit(jsonCase(1, 2, append(append([]byte{}, a...), o...), "deep"))
+		emit(c10JsonCase(1, 1, append(append(append([]byte{}, a...), '1'), bytes.Repeat([]byte("]"), depth)...), "deep"))
+		emit(c10JsonCase(1, 1, append(append(append([]byte{}, o...), '1'), bytes.Repeat([]byte("}"), depth)...), "deep"))
+		emit(c10JsonCase(1, 1, append(append(append([]byte{}, a...), '1'), bytes.Repeat([]byte("]"), depth-1)...), "deep"))
+		emit(c10JsonCase(1, 2, append(append(append([]byte{}, o...), '1'), bytes.Repeat([]byte("}"), depth+1)...), "deep"))
+		emit(c10JsonCase(1, 2, append(append([]byte{}, a...), o...), "deep"))
 	}
-	emit(jsonCase(3, 2, []byte("[1]"), "failing reader"))
-	emit(jsonCase(3, 0, nil, "failing reader"))
+	emit(c10JsonCase(3, 2, []byte("[1]"), "failing reader"))
+	emit(c10JsonCase(3, 0, nil, "failing reader"))
 	for n := 0; n < nRand; n++ {
-		d := joinToks(genDoc(r, 1+n%4))
+		d := c10JoinToks(c10GenDoc(r, 1+n%4))
 		note := "doc"
 		switch n % 4 {
 		case 1, 2:
-			d = mutateBytes(r, d)
+			d = c10MutateBytes(r, d)
 			note = "mut"
 		case 3:
 			if len(d) > 0 {
@@ -424,11 +424,11 @@ func jsonGenCases(r *Rng, tier string, emit func(Case)) {
 		if len(d) > 3000 {
 			d = d[:3000]
 		}
-		emit(jsonCase(r.Intn(3), r.Intn(3), d, note))
+		emit(c10JsonCase(r.Intn(3), r.Intn(3), d, note))
 	}
 }
 
-func jsonClass(c Case, out []int64) string {
+func c10JsonClass(c Case, out []int64) string {
 	dv, _ := takeList(c.Args[2:])
 	d := toBytes(dv)
 	v := "invalid"
@@ -484,25 +484,25 @@ func jsonClass(c Case, out []int64) string {
 	return v + ":" + kind + ":" + sz + ":" + ub
 }
 
-func jsonShrink(c Case) []Case {
+func c10JsonShrink(c Case) []Case {
 	dv, _ := takeList(c.Args[2:])
 	d := toBytes(dv)
 	var out []Case
 	for i := range d {
 		nd := append(append([]byte{}, d[:i]...), d[i+1:]...)
-		out = append(out, jsonCase(int(c.Args[0]), int(c.Args[1]), nd, "shrunk"))
+		out = append(out, c10JsonCase(int(c.Args[0]), int(c.Args[1]), nd, "shrunk"))
 	}
 	if c.Args[1] > 0 {
-		out = append(out, jsonCase(int(c.Args[0]), int(c.Args[1])-1, d, "shrunk"))
+		out = append(out, c10JsonCase(int(c.Args[0]), int(c.Args[1])-1, d, "shrunk"))
 	}
 	return out
 }
 
-var jsonModel = &Model{Name: "json", Gen: jsonGenCases, Impl: jsonImpl, Shrink: jsonShrink, Class: jsonClass}
+var c10JsonModel = &Model{Name: "json", Gen: c10JsonGenCases, Impl: c10JsonImpl, Shrink: c10JsonShrink, Class: c10JsonClass}
 
 // ---- oracle: the property text checked on the implementation ------------------------------------
 
-type jUnit struct {
+type c10JUnit struct {
 	g       json.GrammarType
 	b       []byte
 	lo      int64
@@ -512,13 +512,13 @@ type jUnit struct {
 	errOff  int64
 }
 
-// jsonDrive calls Next until ErrorGrammar has been returned 1+extra times (or the call budget is spent).
-func jsonDrive(d []byte, extra int) (units []jUnit, panicked bool, budget bool) {
+// c10JsonDrive calls Next until ErrorGrammar has been returned 1+extra times (or the call budget is spent).
+func c10JsonDrive(d []byte, extra int) (units []c10JUnit, panicked bool, budget bool) {
 	in := parse.NewInputBytes(append([]byte{}, d...))
 	p := json.NewParser(in)
-	tr := &errTracker{data: d}
+	tr := &c10ErrTracker{data: d}
 	for n := 0; n < len(d)+3+extra; n++ {
-		var u jUnit
+		var u c10JUnit
 		if catch(func() {
 			u.g, u.b = p.Next()
 			u.state = p.State()
@@ -526,7 +526,7 @@ func jsonDrive(d []byte, extra int) (units []jUnit, panicked bool, budget bool) 
 			return units, true, false
 		}
 		u.off = in.Offset()
-		u.lo = sliceOffset(in.Bytes(), u.b)
+		u.lo = c10SliceOffset(in.Bytes(), u.b)
 		u.errKind, u.errOff = tr.observe(p.Err(), in.Offset())
 		units = append(units, u)
 		if u.g == json.ErrorGrammar {
@@ -539,9 +539,9 @@ func jsonDrive(d []byte, extra int) (units []jUnit, panicked bool, budget bool) 
 	return units, false, true
 }
 
-// jsonRejoin re-joins units as the property text says: ':' after a key (a String unit after which State()
+// c10JsonRejoin re-joins units as the property text says: ':' after a key (a String unit after which State()
 // is ObjectValueState), ',' between two units unless the first is a Start or the second an End.
-func jsonRejoin(units []jUnit) []byte {
+func c10JsonRejoin(units []c10JUnit) []byte {
 	var out []byte
 	prevKey, prevStart, first := false, false, true
 	for _, u := range units {
@@ -564,21 +564,21 @@ func jsonRejoin(units []jUnit) []byte {
 	return out
 }
 
-func jsonReplay(d []byte) map[string]interface{} {
+func c10JsonReplay(d []byte) map[string]interface{} {
 	return map[string]interface{}{"input": string(d), "hex": hx(d)}
 }
 
-// jsonCheckGeneral: clauses that hold for every byte string (nesting, State, no panic, slices, progress,
+// c10JsonCheckGeneral: clauses that hold for every byte string (nesting, State, no panic, slices, progress,
 // error offsets) plus acceptance/reconstruction when encoding/json considers d valid.
-func jsonCheckGeneral(rep *Report, d []byte, bucket string) {
-	units, panicked, budget := jsonDrive(d, 2)
+func c10JsonCheckGeneral(rep *Report, d []byte, bucket string) {
+	units, panicked, budget := c10JsonDrive(d, 2)
 	valid := stdjson.Valid(d)
 	if panicked {
-		rep.Violate("panic:"+hx(d), fmt.Sprintf("json.Parser panics on %q", d), jsonReplay(d))
+		rep.Violate("panic:"+hx(d), fmt.Sprintf("json.Parser panics on %q", d), c10JsonReplay(d))
 		return
 	}
 	if budget {
-		rep.Violate("calls:"+hx(d), fmt.Sprintf("more than len+5 calls without two error reports on %q", d), jsonReplay(d))
+		rep.Violate("calls:"+hx(d), fmt.Sprintf("more than len+5 calls without two error reports on %q", d), c10JsonReplay(d))
 	}
 	// independent stack
 	var stack []byte
@@ -591,26 +591,26 @@ func jsonCheckGeneral(rep *Report, d []byte, bucket string) {
 				// a key is returned without the colon: its end is before the offset
 				isKey := u.g == json.StringGrammar && u.state == json.ObjectValueState
 				if !(isKey && u.lo >= 0 && int(u.lo)+len(u.b) < u.off && bytes.Equal(u.b, d[u.lo:int(u.lo)+len(u.b)])) {
-					rep.Violate("slice:"+hx(d), fmt.Sprintf("unit %d of %q is not the piece of the input ending at the offset", i, d), jsonReplay(d))
+					rep.Violate("slice:"+hx(d), fmt.Sprintf("unit %d of %q is not the piece of the input ending at the offset", i, d), c10JsonReplay(d))
 				}
 			}
 			if len(u.b) == 0 || u.off <= prevOff {
-				rep.Violate("progress:"+hx(d), fmt.Sprintf("unit %d of %q is empty or does not advance", i, d), jsonReplay(d))
+				rep.Violate("progress:"+hx(d), fmt.Sprintf("unit %d of %q is empty or does not advance", i, d), c10JsonReplay(d))
 			}
 		} else if firstErr < 0 {
 			firstErr = i
 		}
 		if u.off < prevOff || u.off > len(d) {
-			rep.Violate("offset:"+hx(d), fmt.Sprintf("offset %d after call %d of %q out of order/range", u.off, i, d), jsonReplay(d))
+			rep.Violate("offset:"+hx(d), fmt.Sprintf("offset %d after call %d of %q out of order/range", u.off, i, d), c10JsonReplay(d))
 		}
 		prevOff = u.off
 		if u.errKind == 2 && (u.errOff < 0 || u.errOff > int64(len(d))) {
-			rep.Violate("erroffset:"+hx(d), fmt.Sprintf("error position of %q is not the position of the byte the parser stopped at", d), jsonReplay(d))
+			rep.Violate("erroffset:"+hx(d), fmt.Sprintf("error position of %q is not the position of the byte the parser stopped at", d), c10JsonReplay(d))
 		}
 		switch u.g {
 		case json.StartObjectGrammar, json.StartArrayGrammar:
 			if expectKey {
-				rep.Violate("nonstring-key:container-accepted", fmt.Sprintf("%q: a %v unit is returned where an object key is required (no parse error at that point)", d, u.g), jsonReplay(d))
+				rep.Violate("nonstring-key:container-accepted", fmt.Sprintf("%q: a %v unit is returned where an object key is required (no parse error at that point)", d, u.g), c10JsonReplay(d))
 			}
 			if u.g == json.StartObjectGrammar {
 				stack = append(stack, 'o')
@@ -625,7 +625,7 @@ func jsonCheckGeneral(rep *Report, d []byte, bucket string) {
 				want = 'a'
 			}
 			if len(stack) == 0 || stack[len(stack)-1] != want {
-				rep.Violate("nesting:"+hx(d), fmt.Sprintf("%q: %v for an unopened or differently-typed container", d, u.g), jsonReplay(d))
+				rep.Violate("nesting:"+hx(d), fmt.Sprintf("%q: %v for an unopened or differently-typed container", d, u.g), c10JsonReplay(d))
 				return
 			}
 			stack = stack[:len(stack)-1]
@@ -634,22 +634,22 @@ func jsonCheckGeneral(rep *Report, d []byte, bucket string) {
 			if len(stack) > 0 && stack[len(stack)-1] == 'o' {
 				if expectKey {
 					if u.g != json.StringGrammar {
-						rep.Violate("nonstring-key:"+hx(d), fmt.Sprintf("%q: %v returned as an object key", d, u.g), jsonReplay(d))
+						rep.Violate("nonstring-key:"+hx(d), fmt.Sprintf("%q: %v returned as an object key", d, u.g), c10JsonReplay(d))
 					}
 					if u.state != json.ObjectValueState {
-						rep.Violate("state:"+hx(d), fmt.Sprintf("%q: State() after a key is %v", d, u.state), jsonReplay(d))
+						rep.Violate("state:"+hx(d), fmt.Sprintf("%q: State() after a key is %v", d, u.state), c10JsonReplay(d))
 					}
 					expectKey = false
 				} else {
 					if u.state != json.ObjectKeyState {
-						rep.Violate("state:"+hx(d), fmt.Sprintf("%q: State() after a member value is %v", d, u.state), jsonReplay(d))
+						rep.Violate("state:"+hx(d), fmt.Sprintf("%q: State() after a member value is %v", d, u.state), c10JsonReplay(d))
 					}
 					expectKey = true
 				}
 			}
 		case json.ErrorGrammar:
 		default:
-			rep.Violate("grammar:"+hx(d), fmt.Sprintf("%q: unexpected GrammarType %v", d, u.g), jsonReplay(d))
+			rep.Violate("grammar:"+hx(d), fmt.Sprintf("%q: unexpected GrammarType %v", d, u.g), c10JsonReplay(d))
 		}
 		// State() describes the innermost open container
 		ok := false
@@ -665,34 +665,34 @@ func jsonCheckGeneral(rep *Report, d []byte, bucket string) {
 			}
 		}
 		if !ok {
-			rep.Violate("state:"+hx(d), fmt.Sprintf("%q: State() after call %d is %v but the open containers are %q", d, i, u.state, stack), jsonReplay(d))
+			rep.Violate("state:"+hx(d), fmt.Sprintf("%q: State() after call %d is %v but the open containers are %q", d, i, u.state, stack), c10JsonReplay(d))
 		}
 	}
 	// stickiness of the error report (C01 reading recorded in DESIGN section 6)
 	if firstErr >= 0 {
 		for j := firstErr + 1; j < len(units); j++ {
 			if units[j].g != json.ErrorGrammar {
-				rep.Violate("sticky:error-then-unit", fmt.Sprintf("%q: call %d returns ErrorGrammar, call %d returns %v", d, firstErr, j, units[j].g), jsonReplay(d))
+				rep.Violate("sticky:error-then-unit", fmt.Sprintf("%q: call %d returns ErrorGrammar, call %d returns %v", d, firstErr, j, units[j].g), c10JsonReplay(d))
 				break
 			}
 			if units[firstErr].errKind == 1 && units[j].errKind != 1 {
-				rep.Violate("sticky:eof-then-parse-error", fmt.Sprintf("%q: Err() is io.EOF after call %d and a parse error after call %d", d, firstErr, j), jsonReplay(d))
+				rep.Violate("sticky:eof-then-parse-error", fmt.Sprintf("%q: Err() is io.EOF after call %d and a parse error after call %d", d, firstErr, j), c10JsonReplay(d))
 				break
 			}
 		}
 	}
 	if valid {
 		if firstErr < 0 || units[firstErr].errKind != 1 {
-			rep.Violate("accept:"+hx(d), fmt.Sprintf("%q is valid for encoding/json but the parser reports a parse error", d), jsonReplay(d))
+			rep.Violate("accept:"+hx(d), fmt.Sprintf("%q is valid for encoding/json but the parser reports a parse error", d), c10JsonReplay(d))
 		} else {
 			var want bytes.Buffer
 			stdjson.Compact(&want, d)
-			got := jsonRejoin(units)
+			got := c10JsonRejoin(units)
 			if !bytes.Equal(got, want.Bytes()) {
-				rep.Violate("rejoin:"+hx(d), fmt.Sprintf("%q re-joins to %q, expected %q", d, got, want.Bytes()), jsonReplay(d))
+				rep.Violate("rejoin:"+hx(d), fmt.Sprintf("%q re-joins to %q, expected %q", d, got, want.Bytes()), c10JsonReplay(d))
 			}
 			if len(stack) != 0 {
-				rep.Violate("nesting-open:"+hx(d), fmt.Sprintf("%q: containers left open at EOF", d), jsonReplay(d))
+				rep.Violate("nesting-open:"+hx(d), fmt.Sprintf("%q: containers left open at EOF", d), c10JsonReplay(d))
 			}
 		}
 	}
@@ -709,11 +709,11 @@ func jsonCheckGeneral(rep *Report, d []byte, bucket string) {
 
 // expectParseErrorAt: the first ErrorGrammar must carry a *parse.Error created at offset want, and no unit
 // may be returned for bytes at or after want.
-func jsonExpectErrorAt(rep *Report, d []byte, want int, what string) {
-	units, panicked, _ := jsonDrive(d, 0)
+func c10JsonExpectErrorAt(rep *Report, d []byte, want int, what string) {
+	units, panicked, _ := c10JsonDrive(d, 0)
 	rep.Eval(what+":"+string(d), true, "listed:"+what)
 	if panicked {
-		rep.Violate("panic:"+hx(d), fmt.Sprintf("json.Parser panics on %q", d), jsonReplay(d))
+		rep.Violate("panic:"+hx(d), fmt.Sprintf("json.Parser panics on %q", d), c10JsonReplay(d))
 		return
 	}
 	if len(units) == 0 {
@@ -725,7 +725,7 @@ func jsonExpectErrorAt(rep *Report, d []byte, want int, what string) {
 		if what == "nonstring-key-container" {
 			key = "nonstring-key:container-accepted"
 		}
-		rep.Violate(key, fmt.Sprintf("%s in %q at offset %d: no parse error (Err kind %d)", what, d, want, last.errKind), jsonReplay(d))
+		rep.Violate(key, fmt.Sprintf("%s in %q at offset %d: no parse error (Err kind %d)", what, d, want, last.errKind), c10JsonReplay(d))
 		return
 	}
 	if last.errOff != int64(want) {
@@ -733,12 +733,12 @@ func jsonExpectErrorAt(rep *Report, d []byte, want int, what string) {
 		if what == "nonstring-key-container" {
 			key = "nonstring-key:container-accepted"
 		}
-		rep.Violate(key, fmt.Sprintf("%s in %q: parse error at offset %d, expected at %d", what, d, last.errOff, want), jsonReplay(d))
+		rep.Violate(key, fmt.Sprintf("%s in %q: parse error at offset %d, expected at %d", what, d, last.errOff, want), c10JsonReplay(d))
 	}
 }
 
-// tokOffsets returns the byte offset of each token
-func tokOffsets(ts []jtok) []int {
+// c10TokOffsets returns the byte offset of each token
+func c10TokOffsets(ts []c10Jtok) []int {
 	offs := make([]int, len(ts)+1)
 	for i, t := range ts {
 		offs[i+1] = offs[i] + len(t.b)
@@ -746,23 +746,23 @@ func tokOffsets(ts []jtok) []int {
 	return offs
 }
 
-// nextSolid returns the index of the first non-whitespace token at or after i (len(ts) if none)
-func nextSolid(ts []jtok, i int) int {
+// c10NextSolid returns the index of the first non-whitespace token at or after i (len(ts) if none)
+func c10NextSolid(ts []c10Jtok, i int) int {
 	for i < len(ts) && ts[i].kind == 'w' {
 		i++
 	}
 	return i
 }
 
-func replaceTok(ts []jtok, i int, nb []byte) []jtok {
-	out := append([]jtok{}, ts...)
-	out[i] = jtok{ts[i].kind, nb}
+func c10ReplaceTok(ts []c10Jtok, i int, nb []byte) []c10Jtok {
+	out := append([]c10Jtok{}, ts...)
+	out[i] = c10Jtok{ts[i].kind, nb}
 	return out
 }
 
-// jsonListedMutations applies each of the listed defects to the valid document ts
-func jsonListedMutations(r *Rng, rep *Report, ts []jtok) {
-	offs := tokOffsets(ts)
+// c10JsonListedMutations applies each of the listed defects to the valid document ts
+func c10JsonListedMutations(r *Rng, rep *Report, ts []c10Jtok) {
+	offs := c10TokOffsets(ts)
 	for i, t := range ts {
 		switch t.kind {
 		case '}', ']':
@@ -771,10 +771,10 @@ func jsonListedMutations(r *Rng, rep *Report, ts []jtok) {
 			if t.kind == ']' {
 				other = "}"
 			}
-			jsonExpectErrorAt(rep, joinToks(replaceTok(ts, i, []byte(other))), offs[i], "mismatched-closer")
+			c10JsonExpectErrorAt(rep, c10JoinToks(c10ReplaceTok(ts, i, []byte(other))), offs[i], "mismatched-closer")
 		case ',':
 			// missing comma between two values (keep them apart when both are digits)
-			j := nextSolid(ts, i+1)
+			j := c10NextSolid(ts, i+1)
 			rep0 := []byte{}
 			prev := i - 1
 			for prev > 0 && ts[prev].kind == 'w' {
@@ -783,60 +783,60 @@ func jsonListedMutations(r *Rng, rep *Report, ts []jtok) {
 			if ts[prev].kind == 'n' && ts[j].kind == 'n' && offs[prev+1] == offs[i] && offs[i+1] == offs[j] {
 				rep0 = []byte{' '} // "1,2" without the comma would be the single number 12
 			}
-			nd := joinToks(replaceTok(ts, i, rep0))
-			jsonExpectErrorAt(rep, nd, offs[j]-1+len(rep0), "missing-comma")
+			nd := c10JoinToks(c10ReplaceTok(ts, i, rep0))
+			c10JsonExpectErrorAt(rep, nd, offs[j]-1+len(rep0), "missing-comma")
 		case ':':
-			j := nextSolid(ts, i+1)
-			nd := joinToks(replaceTok(ts, i, nil))
-			jsonExpectErrorAt(rep, nd, offs[j]-1, "missing-colon")
+			j := c10NextSolid(ts, i+1)
+			nd := c10JoinToks(c10ReplaceTok(ts, i, nil))
+			c10JsonExpectErrorAt(rep, nd, offs[j]-1, "missing-colon")
 		case 'k':
 			alt := [][]byte{[]byte("1"), []byte("true"), []byte("null"), []byte("-0.5"), []byte("x"), []byte("'a'")}
-			jsonExpectErrorAt(rep, joinToks(replaceTok(ts, i, alt[r.Intn(len(alt))])), offs[i], "nonstring-key")
+			c10JsonExpectErrorAt(rep, c10JoinToks(c10ReplaceTok(ts, i, alt[r.Intn(len(alt))])), offs[i], "nonstring-key")
 			if r.Chance(1, 4) {
 				cont := [][]byte{[]byte("[1]"), []byte("{}"), []byte("[]")}
-				jsonExpectErrorAt(rep, joinToks(replaceTok(ts, i, cont[r.Intn(len(cont))])), offs[i], "nonstring-key-container")
+				c10JsonExpectErrorAt(rep, c10JoinToks(c10ReplaceTok(ts, i, cont[r.Intn(len(cont))])), offs[i], "nonstring-key-container")
 			}
 		}
 	}
 	// unopened closer after / before the complete document
-	d := joinToks(ts)
+	d := c10JoinToks(ts)
 	last := len(d)
 	for last > 0 && (d[last-1] == ' ' || d[last-1] == '\n' || d[last-1] == '\r' || d[last-1] == '\t') {
 		last--
 	}
 	cl := r.Pick([]byte("]}"))
-	jsonExpectErrorAt(rep, append(append([]byte{}, d...), cl), len(d), "unopened-closer")
+	c10JsonExpectErrorAt(rep, append(append([]byte{}, d...), cl), len(d), "unopened-closer")
 	first := 0
 	for first < len(d) && (d[first] == ' ' || d[first] == '\n' || d[first] == '\r' || d[first] == '\t') {
 		first++
 	}
 	nd := append(append(append([]byte{}, d[:first]...), cl), d[first:]...)
-	jsonExpectErrorAt(rep, nd, first, "unopened-closer")
+	c10JsonExpectErrorAt(rep, nd, first, "unopened-closer")
 	_ = last
 }
 
-var jsonOracle = &Oracle{
+var c10JsonOracle = &Oracle{
 	Name: "json-property",
 	Run: func(r *Rng, tier string, rep *Report) {
 		kA, kT, nDocs := 5, 6, 20000
 		if tier == "thorough" {
 			kA, kT, nDocs = 6, 7, 400000
 		}
-		allStrings(jsonAlphabet, kA, func(d []byte) { jsonCheckGeneral(rep, d, "exh") })
-		allTokenStrings(jsonTokens, kT, func(d []byte) { jsonCheckGeneral(rep, d, "tok") })
+		allStrings(c10JsonAlphabet, kA, func(d []byte) { c10JsonCheckGeneral(rep, d, "exh") })
+		c10AllTokenStrings(c10JsonTokens, kT, func(d []byte) { c10JsonCheckGeneral(rep, d, "tok") })
 		for n := 0; n < nDocs; n++ {
-			ts := genDoc(r, 1+n%5)
-			d := joinToks(ts)
-			jsonCheckGeneral(rep, d, "doc")
+			ts := c10GenDoc(r, 1+n%5)
+			d := c10JoinToks(ts)
+			c10JsonCheckGeneral(rep, d, "doc")
 			if !stdjson.Valid(d) {
-				rep.Violate("generator:"+hx(d), fmt.Sprintf("generated document %q is not valid for encoding/json", d), jsonReplay(d))
+				rep.Violate("generator:"+hx(d), fmt.Sprintf("generated document %q is not valid for encoding/json", d), c10JsonReplay(d))
 			}
 			if n%2 == 0 {
-				jsonListedMutations(r, rep, ts)
+				c10JsonListedMutations(r, rep, ts)
 			}
-			jsonCheckGeneral(rep, mutateBytes(r, d), "mut")
+			c10JsonCheckGeneral(rep, c10MutateBytes(r, d), "mut")
 			if len(d) > 0 {
-				jsonCheckGeneral(rep, d[:r.Intn(len(d))], "trunc")
+				c10JsonCheckGeneral(rep, d[:r.Intn(len(d))], "trunc")
 			}
 		}
 	},
@@ -844,7 +844,7 @@ var jsonOracle = &Oracle{
 
 // ---- the specification (Json/Grammar.v) against encoding/json ----------------------------------------
 
-func jsonSpecDocs(r *Rng, tier string, onlyValid bool, name string, emit func(Case)) {
+func c10JsonSpecDocs(r *Rng, tier string, onlyValid bool, name string, emit func(Case)) {
 	kA, kN, nRand := 4, 5, 6000
 	if tier == "thorough" {
 		kA, kN, nRand = 5, 6, 150000
@@ -855,8 +855,8 @@ func jsonSpecDocs(r *Rng, tier string, onlyValid bool, name string, emit func(Ca
 		}
 		emit(Case{Fn: name, Args: bytesToArgs(d), Note: fmt.Sprintf("%s %q", note, d)})
 	}
-	allStrings(jsonAlphabet, kA, func(d []byte) { out(d, "exh") })
-	allTokenStrings(jsonTokens, kA+1, func(d []byte) { out(d, "tok") })
+	allStrings(c10JsonAlphabet, kA, func(d []byte) { out(d, "exh") })
+	c10AllTokenStrings(c10JsonTokens, kA+1, func(d []byte) { out(d, "tok") })
 	allStrings([]byte("-01.eE+"), kN, func(d []byte) { out(d, "num") })
 	allStrings([]byte("\t\n\r 1[],"), 4, func(d []byte) { out(d, "ws") })
 	allStrings([]byte("\"\\au/0\x1f"), 5, func(d []byte) {
@@ -879,11 +879,11 @@ func jsonSpecDocs(r *Rng, tier string, onlyValid bool, name string, emit func(Ca
 		}
 	}
 	for n := 0; n < nRand; n++ {
-		d := joinToks(genDoc(r, 1+n%4))
+		d := c10JoinToks(c10GenDoc(r, 1+n%4))
 		note := "doc"
 		switch n % 3 {
 		case 1:
-			d = mutateBytes(r, d)
+			d = c10MutateBytes(r, d)
 			note = "mut"
 		case 2:
 			// structural mutations that stay close to valid: drop or double a comma/colon/bracket
@@ -904,7 +904,7 @@ func jsonSpecDocs(r *Rng, tier string, onlyValid bool, name string, emit func(Ca
 	}
 }
 
-func jsonSpecShrink(c Case) []Case {
+func c10JsonSpecShrink(c Case) []Case {
 	dv, _ := takeList(c.Args)
 	d := toBytes(dv)
 	var out []Case
@@ -915,9 +915,9 @@ func jsonSpecShrink(c Case) []Case {
 	return out
 }
 
-var jsonValidModel = &Model{
+var c10JsonValidModel = &Model{
 	Name: "json_valid",
-	Gen:  func(r *Rng, tier string, emit func(Case)) { jsonSpecDocs(r, tier, false, "json_valid", emit) },
+	Gen:  func(r *Rng, tier string, emit func(Case)) { c10JsonSpecDocs(r, tier, false, "json_valid", emit) },
 	Impl: func(c Case) []int64 {
 		dv, _ := takeList(c.Args)
 		if stdjson.Valid(toBytes(dv)) {
@@ -925,7 +925,7 @@ var jsonValidModel = &Model{
 		}
 		return []int64{0}
 	},
-	Shrink: jsonSpecShrink,
+	Shrink: c10JsonSpecShrink,
 	Class: func(c Case, out []int64) string {
 		if out[0] == 1 {
 			return "valid"
@@ -934,9 +934,9 @@ var jsonValidModel = &Model{
 	},
 }
 
-var jsonStripModel = &Model{
+var c10JsonStripModel = &Model{
 	Name: "json_strip",
-	Gen:  func(r *Rng, tier string, emit func(Case)) { jsonSpecDocs(r, tier, true, "json_strip", emit) },
+	Gen:  func(r *Rng, tier string, emit func(Case)) { c10JsonSpecDocs(r, tier, true, "json_strip", emit) },
 	Impl: func(c Case) []int64 {
 		dv, _ := takeList(c.Args)
 		var buf bytes.Buffer
@@ -949,7 +949,7 @@ var jsonStripModel = &Model{
 		}
 		return out
 	},
-	Shrink: jsonSpecShrink,
+	Shrink: c10JsonSpecShrink,
 	Class: func(c Case, out []int64) string {
 		dv, _ := takeList(c.Args)
 		if len(out) == len(dv) {
@@ -960,5 +960,5 @@ var jsonStripModel = &Model{
 }
 
 func init() {
-	props["C10"] = &PropSpec{Models: []*Model{jsonModel, jsonValidModel, jsonStripModel}, Oracles: []*Oracle{jsonOracle}}
+	props["C10"] = &PropSpec{Models: []*Model{c10JsonModel, c10JsonValidModel, c10JsonStripModel}, Oracles: []*Oracle{c10JsonOracle}}
 }
